@@ -338,11 +338,23 @@ def field_stream(ctx):
     from bartiq import Routine
     from qref import SchemaV1
 
+    import signal
+
+    class _Slow(BaseException):
+        pass
+
+    def _alarm(signum, frame):
+        raise _Slow()
+
+    signal.signal(signal.SIGALRM, _alarm)
     rng = ctx.rng
     S = ["N", "M", "k", "L"]
     for i in range(ctx.n(200, 4000)):
         x = lambda d=3: E.to_str(gen_shape(rng, S, d), power=rng.choice(["**", "^"]))  # noqa: E731
         kind = rng.choice(["constant", "arithmetic", "geometric", "closed_form", "custom"])
+        # the count stays a small polynomial: a literal tower like 3^3^4 repetitions sends sympy's numeric evaluation of the
+        # resulting Product into minutes of work (not what this property is about)
+        cnt = E.to_str(G.gen_poly(rng, ["n", "M", "k", "L"], 1, positive=True))
         seq = {"constant": lambda: {"type": "constant", "multiplier": x(2)},
                "arithmetic": lambda: {"type": "arithmetic", "initial_term": x(2), "difference": x(2)},
                "geometric": lambda: {"type": "geometric", "ratio": x(2)},
@@ -353,7 +365,7 @@ def field_stream(ctx):
         core["resources"][1]["value"] = core["resources"][1]["value"].replace("N", "n")
         rep = {"name": "a", "input_params": ["n", "M", "k", "L"], "children": [dict(core, input_params=["n", "M", "k", "L"])],
                "linked_params": [{"source": q_, "targets": ["core." + q_]} for q_ in ("n", "M", "k", "L")],
-               "repetition": {"count": x(2).replace("N", "n"), "sequence": {k_: (v.replace("N", "n") if k_ not in ("type", "num_terms_symbol", "iterator_symbol") else v) for k_, v in seq.items()}}}
+               "repetition": {"count": cnt, "sequence": {k_: (v.replace("N", "n") if k_ not in ("type", "num_terms_symbol", "iterator_symbol") else v) for k_, v in seq.items()}}}
         q = {"name": "root", "input_params": S, "local_variables": {"v": x()},
              "ports": [{"name": "in_0", "direction": "input", "size": x(2)}, {"name": "out_0", "direction": "output", "size": None}],
              "connections": [{"source": "in_0", "target": "out_0"}],
@@ -374,7 +386,14 @@ def field_stream(ctx):
             ctx.violation("failing-input", "re-imported uncompiled routine differs: " + err, {"qref": q}, err, "mathematically equal expressions")
             return
         ctx.nontrivial(("fields", i))
-        st, r = try_compile(q)
+        signal.alarm(20)
+        try:
+            st, r = try_compile(q)
+        except _Slow:
+            ctx.stats["field_stream_compile_slow"] += 1
+            continue
+        finally:
+            signal.alarm(0)
         ctx.stats["field_stream_compile_" + st] += 1
         if st == "ok":
             try:
